@@ -552,6 +552,6 @@ const rule = "batch of 4-16 G1/G2/G3 inputs x 8-64 goroutines behind a start bar
 
 func TestProperty(t *testing.T) {
 	harness.Run(t, harness.Plan{Prop: "C19", Inflight: true, Checks: []harness.Check{
-		{Name: "race", Quick: 150, Thorough: 1200, Gen: genBatch, Prop: prop, Rule: rule},
+		{Name: "race", Quick: 150, Thorough: 600, Gen: genBatch, Prop: prop, Rule: rule},
 	}})
 }
